@@ -30,6 +30,12 @@ BUILT = {
  'C10': dict(technique='bounded exhaustive enumeration of (option state reached by <= 3 builder operations) x (refusing call) x (position of the offending element) on the real library with a before/after snapshot invariant',
              text='for 10 options (scalar, list, no-default, section) every state built by up to 3 (4 thorough) API calls / parses x every refusing call (bulk set with the bad element at each position, veto by the pre-set callback incl. list indices, wrong type, illegal index, existing / missing section, unconvertible or out-of-range text): the call fails and the raw snapshot (count, values, order, annotation, RESET, MODIFIED) is identical.',
              note='trusted: the driver\'s raw snapshot of the public cfg_opt_t fields', ref='5/C10'),
+ 'C08': dict(technique='explicit-state breadth-first search over process histories (events = parses of every abort kind, re-init, context switch); every (history, probe) pair executed in its own fresh process on the real library; invariant = probe outcomes equal their fresh-process outcomes',
+             text='BFS to depth 3 (6 thorough) over 22 event kinds (accepted parse; aborts by syntax error, text ending inside a double/single-quoted string or a comment, bad escape, range failure, failure inside an included file at depth 1/2, self-include, missing / directory include; each through buffer and file; free + re-init; switching between two live contexts). In every state: scanner globals pristine, four probes into a fresh context equal their fresh-process result (return code, values, diagnostics incl. a full-depth include), probes into the live contexts equal the run of the same history without the aborted events.',
+             note='trusted: the scanner peek (same translation unit as the generated lexer); aborted events are chosen to store nothing before failing; dedup key = scanner globals + full dumps of both contexts', ref='5/C08'),
+ 'C11': dict(technique='bounded exhaustive enumeration of path strings (every option x every qualifier form per step, systematically broken variants with <= 2 defects, all short strings over the path alphabet) against a reference path resolver; each path replayed on the real library through five accessors',
+             text='six trees (single, multi, titled, nested depth 3, case-insensitive, digit names; titles with blanks, quotes, separators, backslashes): every path form and every variant with one or two injected defects, and all strings up to length 5 (6) over {a m | = quote backslash 0 1}; cfg_getopt / cfg_getsec must return exactly the object reached by stepwise navigation (pointer identity via the stepwise address), typed getter and size agree, the by-path setter and cfg_rmsec change exactly that target, unresolvable paths fail, terminate and change nothing.',
+             note='trusted: mc/refpath.py; UNSPEC forms (duplicated inner separators, non-decimal indices, empty quoted title, text glued to a closing quote) are executed but not compared', ref='5/C11'),
 }
 
 checks = []
